@@ -185,6 +185,8 @@ ADDED['C04'] += ' Keys are ordered through the key type in the range filter too.
 ADDED['C13'] += ' The worker never unwraps the active-blob slot; no deadline stays armed for a deferred dump whose event was taken out.'
 ADDED['C17'] += ' No key- or file-dependent value is cached in a process-wide static.'
 ADDED['C12'] += ' The size recorded as synced counts completed writes only, never the reservation of an append in flight (finding F16).'
+ADDED['C13'] += ' A clean close completes the index dumps of the closed blobs (finding F17).'
+ADDED['C16'] += ' After a clean close the index file of every closed blob is current (finding F17); the offline reader skips record data only after a header validation failure.'
 
 for _k, _v in ADDED.items():
     _t = CHECKS[_k]
